@@ -277,6 +277,31 @@ class Translator:
             if fn is None:
                 continue
             kws = [a.arg for a in fn.args.args[1:]] + [a.arg for a in fn.args.kwonlyargs]
+            # keywords accepted through the ** dictionary by name (`kwargs.pop("x")`, `kwargs.get("x")`, `kwargs["x"]`, `"x" in kwargs`)
+            # are constructor keywords too, although no signature lists them
+            if fn.args.kwarg is not None:
+                kwname = fn.args.kwarg.arg
+                for s_ in ast.walk(fn):
+                    lit = None
+                    if isinstance(s_, ast.Call) and isinstance(s_.func, ast.Attribute) and isinstance(s_.func.value, ast.Name) and s_.func.value.id == kwname \
+                            and s_.func.attr in ("pop", "get", "setdefault") and s_.args and isinstance(s_.args[0], ast.Constant) and isinstance(s_.args[0].value, str):
+                        lit = s_.args[0].value
+                    if isinstance(s_, ast.Subscript) and isinstance(s_.value, ast.Name) and s_.value.id == kwname and isinstance(s_.slice, ast.Constant) and isinstance(s_.slice.value, str):
+                        lit = s_.slice.value
+                    if isinstance(s_, ast.Compare) and len(s_.ops) == 1 and isinstance(s_.ops[0], (ast.In, ast.NotIn)) and isinstance(s_.left, ast.Constant) \
+                            and isinstance(s_.left.value, str) and isinstance(s_.comparators[0], ast.Name) and s_.comparators[0].id == kwname:
+                        lit = s_.left.value
+                    if lit is not None and lit not in kws:
+                        kws.append(lit)
+                    # a key that is not a literal (e.g. a loop variable over a tuple of names): every identifier-like string constant of
+                    # the constructor may be one
+                    dyn = (isinstance(s_, ast.Call) and isinstance(s_.func, ast.Attribute) and isinstance(s_.func.value, ast.Name) and s_.func.value.id == kwname
+                           and s_.func.attr in ("pop", "get", "setdefault") and s_.args and not isinstance(s_.args[0], ast.Constant)) or \
+                          (isinstance(s_, ast.Subscript) and isinstance(s_.value, ast.Name) and s_.value.id == kwname and not isinstance(s_.slice, ast.Constant))
+                    if dyn:
+                        for c_ in ast.walk(fn):
+                            if isinstance(c_, ast.Constant) and isinstance(c_.value, str) and c_.value.isidentifier() and c_.value not in kws:
+                                kws.append(c_.value)
             defaults = fn.args.defaults
             mut = []
             for a, dv in zip(fn.args.args[len(fn.args.args) - len(defaults):], defaults):
